@@ -13,7 +13,7 @@ ID = "C13"
 PROPS = ["Invoke/Props/C13.lean"]
 TARGETS = ["drv_runner"]
 DRIVER_ROOTS = ["Driver/Runner.lean"]
-GENERATED = []
+GENERATED = ["RunnerState"]
 RULE = ("(i) gated schedules of the real Runner threads with scripted input streams (data / not-ready / EOF items incl. "
         "multi-byte characters, orderings against exit, output, timer and interrupt events, echo_stdin in {None,True,False}, "
         "tty / non-tty input, pty on/off) compared step-for-step with the Lean transition system; (ii) the real Runner over "
@@ -186,7 +186,7 @@ def reuse_stream_case(case):
         as_bytes = len(run) > 2 and run[2]
         r.stdin_writes, r.stdin_closed = [], 0
         r._out, r._err, r._drained = [], [], {"out": False, "err": False}
-        r._deadline = time.monotonic() + 8
+        r._deadline = time.monotonic() + 4
         r.run("cmd", in_stream=io.BytesIO(text.encode(enc)) if as_bytes else io.StringIO(text), hide=True, encoding=enc, echo_stdin=False)
         got = b"".join(r.stdin_writes)
         # what the command reads, decoded as the run's encoding, is the input text (for an encoding with a
@@ -313,10 +313,17 @@ def run(ctx):
         extra.append({"kind": "reuse_stream", "runs": runs})
     for how in ("sys.stdin", "explicit"):
         extra.append({"kind": "async", "how": how, "text": "hello é\n"})
+    failed_of_kind = {}
     for c in extra:
+        if failed_of_kind.get(c["kind"], 0) >= 4:
+            # four concrete failing inputs of this kind are on record; the remaining ones would each wait for an EOF
+            # that never comes
+            out.hist["extra-skipped-after-failures:" + c["kind"]] += 1
+            continue
         out.case(c, True)
         out.hist["extra:" + c["kind"]] += 1
         ok, why = replay(c)
         if not ok:
+            failed_of_kind[c["kind"]] = failed_of_kind.get(c["kind"], 0) + 1
             out.fail(c, why)
     return out
